@@ -316,3 +316,55 @@ Definition convert (T : tables) (V : variant) (t : omml) : result :=
 (* omml_to_latex(None) = "" *)
 Definition convert_opt (T : tables) (V : variant) (t : option omml) : result :=
   match t with None => Ok [] | Some x => convert T V x end.
+
+(* ================================================================== specification vocabulary
+   (executable meaning of the property's right-hand sides; used by Props.v, Inst.v and the check) *)
+
+(* brace balance: running depth never negative, zero at the end *)
+Fixpoint depth_ok (d : nat) (x : str) : option nat :=
+  match x with
+  | [] => Some d
+  | c :: r => if N.eqb c 123 then depth_ok (S d) r
+              else if N.eqb c 125 then match d with O => None | S d' => depth_ok d' r end
+              else depth_ok d r
+  end.
+Definition balanced (x : str) : bool := match depth_ok 0 x with Some O => true | _ => false end.
+
+Definition nb (c : N) : bool := negb (N.eqb c 123) && negb (N.eqb c 125).
+Definition nb_str (x : str) : bool := forallb nb x.
+
+(* no literal brace in any text or attribute value of the tree *)
+Section Forall_tree.
+  Variable rec : omml -> bool.
+  Fixpoint all_children (l : list omml) : bool :=
+    match l with [] => true | c :: r => rec c && all_children r end.
+End Forall_tree.
+Fixpoint nobrace (t : omml) {struct t} : bool :=
+  match t with
+  | Node _ attrs text cs =>
+    forallb (fun kv => nb_str (snd kv)) attrs
+    && match text with Some x => nb_str x | None => true end
+    && all_children nobrace cs
+  end.
+
+(* a mapped value / operator name is harmless for the balance argument: balanced on its own, and if it contains
+   an opening brace it also contains a visible character that is not an opening brace *)
+Definition visible (T : tables) (c : N) : bool := negb (N.eqb c 123) && negb (mem_N c (spaces T)).
+Definition lone_ok (T : tables) (x : str) : bool := negb (existsb (N.eqb 123) x) || existsb (visible T) x.
+Definition value_ok (T : tables) (v : str) : bool :=
+  match depth_ok 0 v with Some O => lone_ok T v | _ => false end.
+Definition closer (T : tables) (key : str) : str :=
+  match assoc key (bracket_map T) with Some v => v | None => s ")" end.
+Definition single_nb (x : str) : bool := match x with [c] => nb c | _ => false end.
+Definition open_ok (T : tables) (o : str) : bool :=
+  match o with
+  | [x] => negb (N.eqb x 125) && (N.eqb x 123 || single_nb (closer T o))
+  | _ => false
+  end.
+Definition wf (T : tables) : bool :=
+  forallb (fun kv => value_ok T (snd kv)) (greek T)
+  && forallb (fun kv => value_ok T (snd kv)) (op_map T)
+  && forallb (fun kv => value_ok T (snd kv)) (accent_map T)
+  && forallb (fun kv => value_ok T (snd kv) && nb_str (fst kv)) (func_map T)
+  && forallb (open_ok T) (open_brackets T)
+  && forallb (fun c => negb (mem_N c (spaces T))) [92; 94; 95; 123; 125].
